@@ -160,11 +160,14 @@ def rule_store_close(ctx, r, which=("tracked jobs", "spec hashes")):
         if label == "tracked jobs":
             scenarios += [("submit(T) then close", dict(base), [("submit", "T")], None, True),
                           ("submit(A) for a target that is already tracked (re-submission: same name, new job id) then close", dict(base), [("submit", "A")], None, True)]
+        # a gwf process that was killed inside an earlier write left its temporary file behind: the next close() must cope (and replace the state file as usual)
+        scenarios.append(("a change, then close, with `<file>.tmp` left behind by an interrupted earlier write", dict(base),
+                          [("update", "T")] if label == "spec hashes" else [("submit", "T")], None, True))
         n_ok = 0
         for name, table, script, want, must_write in scenarios:
-            events, err, obj = eval_close(ctx, ckey, attr, table, script, disk={"A": "⟦STALE⟧", "Z": "⟦STALE_Z⟧"})
+            events, err, obj = eval_close(ctx, ckey, attr, table, script, disk={"A": "⟦STALE⟧", "Z": "⟦STALE_Z⟧"}, existing={lpath + ".tmp"} if "left behind" in name else ())
             if err is not None:
-                r.violation(con + f"::{name}", f"{label}: close() cannot be evaluated after `{name}` ({err})", cm.where)
+                r.violation(con + f"::{name}", f"{label}: close() fails after `{name}` ({err}): what this command recorded is not saved", cm.where)
                 continue
             final = dict(getattr(obj, attr))
             if want is not None and final != want and script:
